@@ -11,7 +11,7 @@ func Order(site string, n int, key func(i int) string, swap func(i, j int)) {}
 
 // Yield marks a point between two internal statements at which a simulator
 // may hold the calling goroutine. No-op without the verif tag.
-func Yield(site string, detail string) {}
+func Yield(site string, detail string, obj any) {}
 
 // Observe reports an internal event to a simulator. No-op without the verif tag.
 func Observe(site string, detail string, obj any) {}
